@@ -250,6 +250,8 @@ class ActionLink(Action):
                 if src in existing_targets:
                     raise ValueError(f'Source "{src}" not allowed since it is the target of another link.')
             # Check target
+            if target in ([source] if isinstance(source, str) else source):
+                raise ValueError(f'Target "{target}" not allowed since it is one of the sources of the link.')
             existing_sources = {s[0] for a in link_actions for s in a.source if a.apply_on == "parse"}
             if target in existing_sources:
                 raise ValueError(f'Target "{target}" not allowed since it is the source of another link.')
